@@ -20,7 +20,7 @@ RULE = ("cadzow: full rectangular site grids 1-4 columns x 4-40 rows in shuffled
         "Non-trivial: grid with >= 2 columns / >= 2 spikes per bin somewhere / >= 2 labels with fold > 1; distinct = distinct (function, shape, "
         "parameters) signature")
 ASSUMPTIONS = ["spike times are sorted (as produced by spike sorters)", "floating point tolerances: identities 1e-10 relative, polynomial reproduction rtol 1e-6"]
-REQUIRED = {"cadzow_identity": 10, "cadzow_planewave": 10, "svd_identity": 10, "smooth_constants": 30, "savgol_polynomials": 30, "savgol_nan": 10,
+REQUIRED = {"cadzow_np1_identity": 6, "cadzow_identity": 10, "cadzow_planewave": 10, "svd_identity": 10, "smooth_constants": 30, "savgol_polynomials": 30, "savgol_nan": 10,
             "venn_conservation": 20, "stack_checked": 10}
 CASE_TIMEOUT = 200.0
 
@@ -30,6 +30,7 @@ def gen_cases(seed, tier):
     cases = []
     for cls, w in (("cadzow", 2), ("svd", 1), ("smooth", 1), ("savgol", 2), ("venn", 2), ("stack", 1)):
         cases += [{"cls": cls, "seed": seed * 10000 + i, "n": 4, "_w": w} for i in range(n)]
+    cases += [{"cls": "cadzow-np1", "seed": seed * 10000 + 9000 + i, "_w": 3} for i in range(2 if tier == "quick" else 12)]
     return cases
 
 
@@ -38,7 +39,30 @@ def run_case(case):
     rng = rng_for(case)
     cls = case["cls"]
     sigs = set()
-    if cls == "cadzow":
+    if cls == "cadzow-np1":
+        # the probe-level driver of the trajectory-matrix denoiser (sliding windows of channels, cross-faded): at the full rank of its windows it returns
+        # band-limited data unchanged, for every documented (overlap, window) working set
+        import ibldsp.cadzow as CZ
+        import neuropixel
+        import scipy.fft
+        h = neuropixel.trace_header(version=1)
+        fs, fmax = 30000.0, 7500.0
+        ns = int(rng.choice([32, 48, 64]))
+        Wf = scipy.fft.rfft(rng.standard_normal((384, ns)) * float(10 ** rng.uniform(-6, 0)))
+        Wf[:, scipy.fft.rfftfreq(ns, 1 / fs) >= fmax - 1] = 0
+        wav = scipy.fft.irfft(Wf, n=ns)
+        for ovx, nswx in ((16, 32), (32, 64), (24, 64), (8, 16)):
+            T, _, _, _ = CZ.trajectory(h["x"][:nswx], h["y"][:nswx])
+            rfull = int(min(T.shape))
+            label = f"cadzow_np1 ns={ns} ovx={ovx} nswx={nswx} rank={rfull} (full)"
+            try:
+                out = CZ.cadzow_np1(wav.copy(), fs=fs, rank=rfull, fmax=fmax, ovx=ovx, nswx=nswx)
+                err = np.max(np.abs(out - wav)) / np.max(np.abs(wav)) if out.shape == wav.shape else np.inf
+                res.check(err <= 1e-9, "cadzow:np1-full-rank-identity", f"{label}: band-limited data come back changed by {err:.3g} (relative)", counter="cadzow_np1_identity")
+            except Exception as e:
+                res.exception("cadzow:np1:exception", e, label)
+        sigs.add(("cadzow-np1", ns))
+    elif cls == "cadzow":
         import ibldsp.cadzow as CZ
         for _ in range(case["n"]):
             ncol, nrow = int(rng.integers(1, 5)), int(rng.integers(4, 41))
